@@ -25,7 +25,23 @@ def main():
         print("MACHINERY-ERROR property=%s" % a.prop)
         traceback.print_exc()
         rc = 2
-    sys.exit(rc)
+    return rc
+
+
+def entry():
+    """run main in a thread with a large stack (deeply nested terms in generators and records)"""
+    import threading
+    out = {"rc": 2}
+
+    def body():
+        sys.setrecursionlimit(200000)
+        out["rc"] = main()
+    threading.stack_size(1024 * 1024 * 1024)
+    t = threading.Thread(target=body)
+    t.start()
+    t.join()
+    sys.stdout.flush()
+    sys.exit(out["rc"])
 
 
 def generic_replay(prop, path):
@@ -42,4 +58,4 @@ def generic_replay(prop, path):
 
 
 if __name__ == "__main__":
-    main()
+    entry()
